@@ -86,7 +86,7 @@ def replay_request(method):
 def check_request(sess, method, kf_active):
     """command / query bodies"""
     ctx = sess.new_ctx()
-    sm.install_common(ctx, sm.PortModel(faults=True, reads='any', exc_classes=('SerialException', 'OSError')))
+    sm.install_common(ctx, sm.PortModel(faults=True, reads='any', exc_classes=('SerialException', 'OSError', 'RuntimeError')))
     ctx.contracts[f'{sm.EBB3}.record_error'] = sm.RecordError()
     ctx.opts['unroll_limit'] = 64
     ex = Exec(ctx)
@@ -161,7 +161,7 @@ def check_request(sess, method, kf_active):
 
 def check_statusbyte(sess):
     ctx = sess.new_ctx()
-    sm.install_common(ctx, sm.PortModel(faults=True, reads='any', exc_classes=('SerialException', 'OSError')))
+    sm.install_common(ctx, sm.PortModel(faults=True, reads='any', exc_classes=('SerialException', 'OSError', 'RuntimeError')))
     ctx.contracts[f'{sm.EBB3}.record_error'] = sm.RecordError()
     ex = Exec(ctx)
     p = Path()
@@ -275,18 +275,12 @@ def check_callers(sess, only=None):
             if failed:
                 oblige_at(ex, q, tag, 'ensures', not isinstance(err, VNone), 'failed-request-leaves-err-set')
                 oblige_at(ex, q, tag, 'ensures', fail_matches(out.val, FAIL[meth]), f'failed-request-returns-{FAIL[meth]!r}')
-                # nothing is transmitted after the failed request
-                evs = q.events
-                idx = [i for i, e in enumerate(evs) if e[0] == 'request']
-                bad_after = False
-                seen_fail = False
-                for e in evs:
-                    if e[0] == 'request' and seen_fail:
-                        bad_after = True
-                    if e[0] in ('write', 'write-exc'):
-                        pass
-                # (a later request on a latched object is blocked by the callee contract: no event is produced)
-                oblige_at(ex, q, tag, 'ensures', not bad_after, 'no-request-after-the-failed-one')
+                # nothing is transmitted once the error is recorded -- not even by the rest of the SAME call (a helper that splits its
+                # work into several requests must stop at the first failed one)
+                at = q.ghost.get('err_set_at')
+                later = [e for e in q.events[at:]] if at is not None else []
+                oblige_at(ex, q, tag, 'ensures', at is not None and not any(e[0] in ('write', 'write-exc', 'request') for e in later),
+                          'nothing-is-transmitted-after-the-error-is-recorded(same-call)')
             else:
                 oblige_at(ex, q, tag, 'ensures', isinstance(err, VNone), 'no-failure-leaves-err-None')
             n += 1
